@@ -1263,7 +1263,7 @@ RULE = ("chains of 1-5 recorded runs appended to one undo file; non-trivial chai
 def main(tier, seed, replay=None, scale=1.0):
     if replay:
         tier = json.load(open(os.path.join(replay, "case.json"))).get("tier", tier)
-    rep = report.Report("C12", tier, seed, "exploration+fault_enumeration", rule=RULE)
+    rep = report.Report("C12", tier, seed, "exploration", rule=RULE)
     b = build.get_build("plain")
     bud = {k: max(2, int(v * scale)) for k, v in BUDGET[tier].items()}
     names = QUICK_BASES if tier == "quick" else \
